@@ -142,6 +142,18 @@ func verifPick(name string, lo, hi int) int {
 
 func verifIsConcrete(x int) bool { return true }
 
+// verifFill gives memory whose content is "arbitrary" a concrete, position-dependent pattern in
+// the native replay (so that shifted, stale or duplicated bytes are visible); for the solver
+// the content simply stays arbitrary.
+var verifFillSeq int
+
+func verifFill(p []byte) {
+	verifFillSeq++
+	for i := range p {
+		p[i] = byte(verifFillSeq*53 + i*7 + (i >> 8) + 1)
+	}
+}
+
 func verifIteInt(c bool, a, b int) int {
 	if c {
 		return a
